@@ -19,7 +19,7 @@ META = {
                    "last_point_within_tol on every normal path, and the solver's eval really calls the merit function on every path "
                    "(the flag always describes the evaluation that just happened); it is True only under a universal test over "
                    "|unweighted residual| < tol or-ed with the inactive mask. reload writes every logged knob unconditionally and "
-                   "directly, and restores both kinds of active flags from the same log row. Values are compared as symbolic terms.",
+                   "directly, and restores both kinds of active flags from the same log row. Values are compared as symbolic terms. The masks logged as iteration 0 are those of their own side.",
     "decides": "must-pass-through of the tolerance assertion, handler shape, flag freshness and provenance, reload completeness",
     "not_decided": "'within tolerance' as a numeric fact; bit-exactness of the restore",
     "assumptions": ["user actions signal failure only by returning the string 'failed' or by raising"],
